@@ -112,7 +112,8 @@ CapableMn(t) ==
 Runnable(t) == IF IsMn(tinfo[t].rq) THEN CapableMn(t) ELSE \E w \in Workers : CapableSn(w, t)
 
 ChannelsEmpty == \A w \in DOMAIN wk : wk[w].s2w = <<>> /\ wk[w].w2s = <<>>
-Quiescent == ChannelsEmpty /\ fut = {} /\ ~needSched /\ (\A w \in DOMAIN wk : ~wk[w].stopped)
+\* (an execution that was told to stop is no longer in fut; while its process is still dying the worker keeps it in `running`)
+Quiescent == ChannelsEmpty /\ fut = {} /\ ~needSched /\ (\A w \in DOMAIN wk : ~wk[w].stopped /\ wk[w].running = {})
 
 CancelInFlight(w, t) ==
   \E i \in DOMAIN wk[w].s2w : wk[w].s2w[i].k = "Cancel" /\ t \in SeqSet(wk[w].s2w[i].ids)
